@@ -204,3 +204,8 @@ def replay(ctx, payload):
         r = files_idempotence(ctx, replay=w)
         return r["violations"][0]["what"] if r["violations"] else None
     return ce.replay_cache(ctx, w, PROPS)
+
+
+def explore_shard(ctx):
+    """extra parallel shard of the thorough tier: the seeded histories (cooperative scheduler, logical clock)"""
+    return ce.explore_cache(ctx, PROPS, 4000, steps=6)
